@@ -114,10 +114,13 @@ Print Assumptions C01_leaf_lossless_stage5.
 (* esds with its whole descriptor tree (ES_Descriptor, DecoderConfigDescriptor with nested descriptors, DecSpecificInfo,
    SLConfig, raw descriptors, UnknownData, size fields of any width): reproduced from the decoded tree plus the size
    fields as read; C01_esds_core adds that a run whose size fields are in the encoder's form and that kept no
-   UnknownData (leaf_guard) captured exactly the encoder's size fields and never looked behind the bytes it consumed *)
+   UnknownData (leaf_guard) captured exactly the encoder's size fields and never looked behind the bytes it consumed.
+   DecodeEsdsSR reads the payload of the box only (repo commit 27ea537, finding C03-F7: the descriptor decoders used
+   to complete a descriptor cut short with the bytes behind the box), so the replay is stated for a header that
+   announces exactly the re-encoded body -- what hdr_fits gives in C01_fixpoint. *)
 Theorem C01_esds_core : forall h r l rsv r', bytes_ok r = true -> dec_esds h r = Ok ((l, rsv), r') ->
   bytes_ok r' = true /\ leaf_name l = n_esds /\ exists b, body_leaf l rsv = Ok b /\ r = b ++ r' /\
-    (leaf_guard l = true -> rsv = dflt_rsv l /\ forall r2, dec_esds h (b ++ r2) = Ok ((l, rsv), r2)).
+    (leaf_guard l = true -> rsv = dflt_rsv l /\ forall r2, payload_len h = lenN b -> dec_esds h (b ++ r2) = Ok ((l, rsv), r2)).
 Proof. exact esds_core. Qed.
 Print Assumptions C01_esds_core.
 
